@@ -81,7 +81,9 @@ impl<'a> OnDiskDirEntry<'a> {
     pub fn lfn_contents(&self) -> Option<(bool, u8, u8, [u16; 13])> {
         if self.is_lfn() {
             let is_start = (self.data[0] & 0x40) != 0;
-            let sequence = self.data[0] & 0x1F;
+            // everything but the 'last fragment' flag: ordinals above 20 do not
+            // exist and must not be folded onto valid ones
+            let sequence = self.data[0] & !0x40;
             let csum = self.data[13];
             let buffer = [
                 LittleEndian::read_u16(&self.data[1..=2]),
